@@ -535,8 +535,8 @@ func rpcAgreement(c *Ctx, id string) {
 			}
 			n++
 			c.see(fn)
-			construct := "rpc-call@" + fname(rootFn(fn))
 			name := w.Origin(cc.Args[1])
+			construct := "rpc-call:" + strings.TrimSuffix(strings.TrimPrefix(name, "const(\""), "\")")
 			if !strings.HasPrefix(name, "const(\"Handler.") {
 				c.Fail(id, construct, in.Pos(), "the method name %s is not a constant Handler.<method>", name)
 				return
@@ -558,9 +558,17 @@ func rpcAgreement(c *Ctx, id string) {
 				c.Fail(id, construct, in.Pos(), "Handler.%s takes %s, the client sends (%s, %s)", method, sig.Params(), dyn(cc.Args[2]), dyn(cc.Args[3]))
 				return
 			}
-			// the exported wrapper's name and the handler method agree (Rebalance calls Handler.Rebalance)
-			if rootFn(fn).Name() != method {
-				c.Fail(id, construct, in.Pos(), "%s calls Handler.%s", fname(rootFn(fn)), method)
+			// the client method that makes this call is the one of the same name (Rebalance calls Handler.Rebalance)
+			owner := ""
+			for _, m := range w.implsOf("servicediscovery", "Client", method) {
+				for _, u := range methodUnit(w, m) {
+					if u == fn {
+						owner = method
+					}
+				}
+			}
+			if owner == "" {
+				c.Fail(id, construct, in.Pos(), "Handler.%s is called from %s, not from the client's %s", method, fname(rootFn(fn)), method)
 				return
 			}
 			c.OK(id, construct, in.Pos(), "Handler.%s%s exists and receives (%s, %s)", method, sig.Params(), dyn(cc.Args[2]), dyn(cc.Args[3]))
@@ -575,7 +583,7 @@ func rpcAgreement(c *Ctx, id string) {
 			return
 		}
 		got := map[string]string{}
-		for _, f := range withAnon(fn) {
+		for _, f := range methodUnit(w, fn) {
 			c.see(f)
 			allInstrs(f, func(in ssa.Instruction) {
 				st, ok := in.(*ssa.Store)
@@ -715,15 +723,36 @@ func rpcClientLifecycle(c *Ctx, id string) {
 	}, "(client, nil) ⇔ connected; (nil, err) otherwise")
 	// the dial attempt
 	var attempt *ssa.Function
-	for _, f := range conn.AnonFuncs {
-		attempt = f
+	for _, f := range methodUnit(w, conn) {
+		allInstrs(f, func(in ssa.Instruction) {
+			if cc := callOf(in); cc != nil && cc.StaticCallee() != nil && fname(cc.StaticCallee()) == "net/rpc.Dial" {
+				attempt = f
+			}
+		})
 	}
-	c.need(attempt != nil, id, "the dial attempt handed to Retry")
+	c.need(attempt != nil, id, "the dial attempt")
 	c.see(attempt)
 	recv := "c"
 	if len(attempt.FreeVars) > 0 {
 		recv = attempt.FreeVars[0].Name()
+	} else if len(attempt.Params) > 0 {
+		recv = attempt.Params[0].Name()
 	}
+	// the connection field: the one of type *rpc.Client
+	connField, flagField := "", ""
+	if ct := w.NamedType("servicediscovery", "client"); ct != nil {
+		if st, ok := ct.Underlying().(*types.Struct); ok {
+			for i := 0; i < st.NumFields(); i++ {
+				if strings.HasSuffix(st.Field(i).Type().String(), "net/rpc.Client") {
+					connField = st.Field(i).Name()
+				}
+				if b, isB := st.Field(i).Type().Underlying().(*types.Basic); isB && b.Kind() == types.Bool {
+					flagField = st.Field(i).Name()
+				}
+			}
+		}
+	}
+	c.need(connField != "" && flagField != "", id, "the client's *rpc.Client field and its connected flag")
 	c.oae(id, "rpc-client:dial", attempt.Pos(), &Harness{Fn: attempt, Bools: []string{"dialFails"}, Quiet: quietLog,
 		Oracle: func(st *State, name string, args []AV, res *types.Tuple) ([]AV, bool) {
 			if name == "net/rpc.Dial" {
@@ -738,7 +767,7 @@ func rpcClientLifecycle(c *Ctx, id string) {
 		if !ok || st.B("dialFails") != !e.isNil {
 			return "dial failed=" + fmt.Sprint(st.B("dialFails")) + ", attempt returns " + avString(out.Ret[0])
 		}
-		conn, flag := out.Final(recv+".client"), out.Final(recv+".connected")
+		conn, flag := out.Final(recv+"."+connField), out.Final(recv+"."+flagField)
 		if st.B("dialFails") {
 			if conn != nil || flag != nil {
 				return "a failed dial changes the client's state"
@@ -755,7 +784,7 @@ func rpcClientLifecycle(c *Ctx, id string) {
 	}, "dial ok ⇒ connection kept, marked connected, nil; failed ⇒ its error, state untouched")
 	c.see(cls)
 	cr := cls.Params[0].Name()
-	c.oae(id, "rpc-client:close", cls.Pos(), &Harness{Fn: cls, Bools: []string{cr + ".connected", "closeFails"}, Quiet: quietLog, InlineAll: false,
+	c.oae(id, "rpc-client:close", cls.Pos(), &Harness{Fn: cls, Bools: []string{cr + "." + flagField, "closeFails"}, Quiet: quietLog, InlineAll: false,
 		Oracle: func(st *State, name string, args []AV, res *types.Tuple) ([]AV, bool) {
 			if name == "(*net/rpc.Client).Close" {
 				if st.B("closeFails") {
@@ -773,7 +802,7 @@ func rpcClientLifecycle(c *Ctx, id string) {
 		if !ok {
 			return "result not determined"
 		}
-		if !st.B(cr + ".connected") {
+		if !st.B(cr + "." + flagField) {
 			if n != 0 || !e.isNil {
 				return "closing a client that is not connected does something"
 			}
@@ -782,7 +811,7 @@ func rpcClientLifecycle(c *Ctx, id string) {
 		if n != 1 {
 			return fmt.Sprintf("the connection is closed %d times", n)
 		}
-		if b, ok := out.Final(cr + ".connected").(avBool); !ok || b.b {
+		if b, ok := out.Final(cr + "." + flagField).(avBool); !ok || b.b {
 			return "the client stays marked connected: the next Close closes the connection again"
 		}
 		if st.B("closeFails") == e.isNil {
@@ -790,4 +819,39 @@ func rpcClientLifecycle(c *Ctx, id string) {
 		}
 		return ""
 	}, "connected ⇒ connection closed once, marked disconnected, its error returned; otherwise nothing")
+}
+
+// methodUnit: the functions that make up one method: its closures, the methods it hands on as bound method values,
+// and its same-package synchronous callees (two levels).
+func methodUnit(w *World, fn *ssa.Function) []*ssa.Function {
+	seen := map[*ssa.Function]bool{}
+	var out []*ssa.Function
+	var add func(f *ssa.Function, depth int)
+	add = func(f *ssa.Function, depth int) {
+		if f == nil || seen[f] || f.Blocks == nil {
+			return
+		}
+		seen[f] = true
+		out = append(out, f)
+		for _, a := range f.AnonFuncs {
+			add(a, depth)
+		}
+		if depth >= 2 {
+			return
+		}
+		allInstrs(f, func(in ssa.Instruction) {
+			if mc, ok := in.(*ssa.MakeClosure); ok {
+				if b := w.boundMethodOf(mc); b != nil && b.Pkg == fn.Pkg {
+					add(b, depth+1)
+				}
+			}
+			if cc := callOf(in); cc != nil {
+				if cal := cc.StaticCallee(); cal != nil && cal.Pkg == fn.Pkg && cal.Pkg != nil {
+					add(cal, depth+1)
+				}
+			}
+		})
+	}
+	add(fn, 0)
+	return out
 }
